@@ -44,7 +44,24 @@ structure Observation where
   /-- `some s`: scalar on Factorio signal `s` whose Core type is `ty`; `none`: whole bundle -/
   sig : Option Sig
   node : Nat
+  /-- `some a`: this observes a circuit-controlled entity, which must be enabled iff `a > 0` -/
+  enable : Option Arg := none
   deriving Repr, Inhabited
+
+/-- an entity read through `.output`: Core entity number and blueprint index -/
+structure SourceBinding where
+  ent : Nat
+  idx : Nat
+  deriving Repr, Inhabited
+
+def contentPool : List Sig := ["iron-plate", "copper-plate", "coal", "signal-A", "water"]
+
+/-- pseudo-random chest contents: a few pool signals with small non-negative counts -/
+def genContents (s : UInt64) : UInt64 × SigMap :=
+  contentPool.foldl (fun (st, acc) sg =>
+    let s1 := lcg st
+    let r := (s1 >>> 35).toNat
+    if r % 3 == 0 then (s1, acc) else (s1, acc ++ [(sg, i32 (Int.ofNat (r % 300)))])) (s, [])
 
 def showMap (m : List (Sig × Int)) : Json :=
   Json.mkObj (m.map (fun (k, v) => (k, Json.num (JsonNumber.fromInt v))))
@@ -65,26 +82,38 @@ def Mismatch.toJson (m : Mismatch) : Json :=
 
 /-- compare one valuation; returns the mismatching observations -/
 def compareOnce (core : CoreProg) (circ : Circuit) (inputs : List InputBinding) (obs : List Observation)
-    (ren : Sig → Sig) (vals : List I32) (ticks : Nat) : List Mismatch :=
+    (ren : Sig → Sig) (vals : List I32) (ticks : Nat) (srcs : List (SourceBinding × SigMap) := []) : List Mismatch :=
   let bind := inputs.zip vals
-  let env : Env := { input := fun nm => (bind.find? (fun (b, _) => b.name == nm)).map (·.2) }
-  let inp : Inputs := fun i => (bind.find? (fun (b, _) => b.idx == i)).map (fun (b, v) => [(b.sig, v)])
+  let env : Env := { input := fun nm => (bind.find? (fun (b, _) => b.name == nm)).map (·.2),
+                     entOut := fun e => ((srcs.find? (fun (b, _) => b.ent == e)).map (·.2)).getD [] }
+  let inp : Inputs := fun i =>
+    match (bind.find? (fun (b, _) => b.idx == i)).map (fun (b, v) => [(b.sig, v)]) with
+    | some m => some m
+    | none => (srcs.find? (fun (b, _) => b.idx == i)).map (·.2)
   let want := evalNodes core.nodes env
   let outs := circ.runA inp ticks
   let outs' := circ.stepA inp outs
   let f : Nat → SigMap := fun p => outs.getD p []
   let f' : Nat → SigMap := fun p => outs'.getD p []
+  let contents : List (String × Int) := srcs.flatMap (fun (b, m) => (SigMap.sorted m).map (fun (k, v) => (s!"entity{b.ent}.{k}", v)))
   obs.filterMap (fun o =>
     let w := renameMap ren (want.getD o.node [])
     let seen (g : Nat → SigMap) : SigMap := if o.atAnchor then circ.observe g o.idx else g o.idx
-    let (e, g, g') := match o.sig with
+    let (e, g, g') := match o.enable with
+      | some a =>
+        let expectOn := (argVal core.nodes want a).toInt > 0
+        let cond := match circ.kind o.idx with | .controlled c => c | _ => none
+        let on (h : Nat → SigMap) : Bool := evalEnabled cond (circ.readR h o.idx) (circ.readG h o.idx)
+        ([("enabled", boolI expectOn)], [("enabled", boolI (on f))], [("enabled", boolI (on f'))])
+      | none =>
+      match o.sig with
       | some s => ([(s, w.get s)], [(s, (seen f).get s)], [(s, (seen f').get s)])
       | none => (w, seen f, seen f')
     let es := SigMap.sorted e
     let gs := SigMap.sorted g
     let gs' := SigMap.sorted g'
     if es == gs && es == gs' then none
-    else some { name := o.name, valuation := bind.map (fun (b, v) => (b.name, v.toInt)), expected := es,
+    else some { name := o.name, valuation := bind.map (fun (b, v) => (b.name, v.toInt)) ++ contents, expected := es,
                 got := if es == gs then gs' else gs, tick := ticks })
 
 def genVals (seed : UInt64) (n : Nat) : UInt64 × List I32 :=
@@ -92,7 +121,9 @@ def genVals (seed : UInt64) (n : Nat) : UInt64 × List I32 :=
 
 /-- the search: literal values, all-zero, all-one, then `count` seeded valuations; stops at `maxReport` -/
 def searchStateless (core : CoreProg) (circ : Circuit) (inputs : List InputBinding) (obs : List Observation)
-    (ren : Sig → Sig) (seed : UInt64) (count ticks maxReport : Nat) : Nat × List Mismatch :=
+    (ren : Sig → Sig) (seed : UInt64) (count ticks maxReport : Nat) (sources : List SourceBinding := []) : Nat × List Mismatch :=
+  let genSrcs (s : UInt64) : UInt64 × List (SourceBinding × SigMap) :=
+    sources.foldl (fun (st, acc) b => let (st', m) := genContents st; (st', acc ++ [(b, m)])) (s, [])
   let fixed : List (List I32) :=
     [inputs.map (·.lit), inputs.map (fun _ => 0), inputs.map (fun _ => 1), inputs.map (fun _ => i32 (-1))]
   let rec go (fuel : Nat) (s : UInt64) (done : Nat) (acc : List Mismatch) : Nat × List Mismatch :=
@@ -100,10 +131,119 @@ def searchStateless (core : CoreProg) (circ : Circuit) (inputs : List InputBindi
     | 0 => (done, acc)
     | f + 1 =>
       if acc.length ≥ maxReport then (done, acc) else
-      let (s', vs) := genVals s inputs.length
-      go f s' (done + 1) (acc ++ compareOnce core circ inputs obs ren vs ticks)
-  let first := fixed.foldl (fun acc vs => if acc.length ≥ maxReport then acc else acc ++ compareOnce core circ inputs obs ren vs ticks) []
+      let (s1, vs) := genVals s inputs.length
+      let (s', cs) := genSrcs s1
+      go f s' (done + 1) (acc ++ compareOnce core circ inputs obs ren vs ticks cs)
+  let first := fixed.foldl (fun acc vs => if acc.length ≥ maxReport then acc else acc ++ compareOnce core circ inputs obs ren vs ticks (genSrcs (seed + 17)).2) []
   let (d, ms) := go count seed 0 first
   (d + fixed.length, ms.take maxReport)
+
+end Facto
+
+namespace Facto
+
+/-! ## Stateful programs: quasi-static histories (C03, C05) and iteration (C04) -/
+
+def runTicks (circ : Circuit) (inp : Inputs) (outs : Array SigMap) : Nat → Array SigMap
+  | 0 => outs
+  | t + 1 => runTicks circ inp (circ.stepA inp outs) t
+
+/-- abstract next state of every cell after the inputs `env` were held until everything settled -/
+def nextMem (core : CoreProg) (env : Env) : Nat → I32 :=
+  let vals := evalNodes core.nodes env
+  fun m =>
+    match core.mems[m]? with
+    | some cell =>
+      match cell.writes with
+      | [rule] => rule.next core.nodes vals (env.mem m)
+      | _ => env.mem m
+    | none => 0
+
+structure HistMismatch where
+  name : String
+  step : Nat
+  /-- per cell at the failing step: (cell, rule kind, previous value, data/value, enable/set, reset) -/
+  cells : List (Nat × String × Int × Int × Int × Int) := []
+  history : List (List (String × Int))
+  expected : List (Sig × Int)
+  got : List (Sig × Int)
+
+def HistMismatch.toJson (m : HistMismatch) : Json :=
+  Json.mkObj [("name", m.name), ("step", m.step),
+    ("cells", Json.arr (m.cells.map (fun (c, k, p, d, e, r) => Json.mkObj [("cell", c), ("kind", k), ("prev", Json.num (JsonNumber.fromInt p)),
+      ("data", Json.num (JsonNumber.fromInt d)), ("enable_or_set", Json.num (JsonNumber.fromInt e)), ("reset", Json.num (JsonNumber.fromInt r))])).toArray),
+    ("history", Json.arr (m.history.map showMap).toArray),
+    ("expected", showMap m.expected), ("got", showMap m.got)]
+
+/-- One-input-at-a-time history; every step is held `hold` ticks. Cells whose rule is `always`
+are excluded from the comparison (they never settle; see `iterateCheck`). -/
+def searchHistory (core : CoreProg) (circ : Circuit) (inputs : List InputBinding) (obs : List Observation)
+    (ren : Sig → Sig) (seed : UInt64) (steps hold : Nat) : Nat × List HistMismatch :=
+  let nIn := inputs.length
+  let rec go (fuel : Nat) (s : UInt64) (k : Nat) (vals : List I32) (mem : Nat → I32) (outs : Array SigMap)
+      (hist : List (List (String × Int))) : Nat × List HistMismatch :=
+    match fuel with
+    | 0 => (k, [])
+    | f + 1 =>
+      let bind := inputs.zip vals
+      let inp : Inputs := fun i => (bind.find? (fun (b, _) => b.idx == i)).map (fun (b, v) => [(b.sig, v)])
+      let env0 : Env := { input := fun nm => (bind.find? (fun (b, _) => b.name == nm)).map (·.2), mem }
+      let mem' := nextMem core env0
+      -- memoise the new state on the finite set of cells
+      let memArr := (Array.range core.mems.size).map mem'
+      let memF : Nat → I32 := fun m => memArr.getD m 0
+      let env1 : Env := { env0 with mem := memF }
+      let want := evalNodes core.nodes env1
+      let outs' := runTicks circ inp outs hold
+      let g : Nat → SigMap := fun p => outs'.getD p []
+      let hist' := hist ++ [bind.map (fun (b, v) => (b.name, v.toInt))]
+      let vals0 := evalNodes core.nodes env0
+      let av := fun a => (argVal core.nodes vals0 a).toInt
+      let cellInfo : List (Nat × String × Int × Int × Int × Int) := (List.range core.mems.size).filterMap (fun m =>
+        match core.mems[m]? with
+        | some cell =>
+          match cell.writes with
+          | [.always d] => some (m, "always", (mem m).toInt, av d, 1, 0)
+          | [.gated d e] => some (m, "gated", (mem m).toInt, av d, av e, 0)
+          | [.latch v st r p] => some (m, if p then "sr_latch" else "rs_latch", (mem m).toInt, av v, av st, av r)
+          | _ => none
+        | none => none)
+      let bad := obs.filterMap (fun o =>
+        let w := renameMap ren (want.getD o.node [])
+        let seen : SigMap := if o.atAnchor then circ.observe g o.idx else g o.idx
+        let (e, got) := match o.sig with
+          | some sg => ([(sg, w.get sg)], [(sg, seen.get sg)])
+          | none => (w, seen)
+        let es := SigMap.sorted e
+        let gs := SigMap.sorted got
+        if es == gs then none else some { name := o.name, step := k, cells := cellInfo, history := hist', expected := es, got := gs : HistMismatch })
+      if !bad.isEmpty then (k + 1, bad.take 2) else
+      -- change one input
+      let s1 := lcg s
+      let which := if nIn == 0 then 0 else (s1 >>> 33).toNat % nIn
+      let (s2, v) := pick s1
+      -- small values make enables / thresholds toggle often
+      let v' : Int := if (s2 >>> 40).toNat % 3 == 0 then v else (v % 7)
+      let vals' := vals.set which (i32 v')
+      go f s2 (k + 1) vals' memF outs' hist'
+  go steps seed 0 (inputs.map (·.lit)) (fun _ => 0) (circ.initA (fun _ => none)) []
+
+/-- C04: for an `always` cell observed at `o`, find `L ∈ 1..maxL` with `value(t+L) = f(value t)` for all
+`t < window`; returns the first `L` that works. `f` is the Core write rule with the cell bound to `x`. -/
+def iterateCheck (core : CoreProg) (circ : Circuit) (inputs : List InputBinding) (cell : Nat) (o : Observation)
+    (vals : List I32) (maxL window : Nat) : Option Nat × List Int :=
+  let bind := inputs.zip vals
+  let inp : Inputs := fun i => (bind.find? (fun (b, _) => b.idx == i)).map (fun (b, v) => [(b.sig, v)])
+  let envOf (x : I32) : Env := { input := fun nm => (bind.find? (fun (b, _) => b.name == nm)).map (·.2), mem := fun m => if m == cell then x else 0 }
+  let f (x : I32) : I32 := nextMem core (envOf x) cell
+  let total := window + maxL + 1
+  let trace : List I32 := ((List.range total).foldl (fun (acc : List I32 × Array SigMap) _ =>
+      let outs := acc.2
+      let g : Nat → SigMap := fun p => outs.getD p []
+      let seen : SigMap := if o.atAnchor then circ.observe g o.idx else g o.idx
+      let v := match o.sig with | some sg => seen.get sg | none => 0
+      (acc.1 ++ [v], circ.stepA inp outs)) ([], circ.initA inp)).1
+  let ok (L : Nat) : Bool := (List.range window).all (fun t => trace.getD (t + L) 0 == f (trace.getD t 0))
+  (((List.range maxL).map (· + 1)).find? ok, (trace.take 24).map (·.toInt))
 
 end Facto
